@@ -24,8 +24,9 @@ def profiles(tier):
     q = tier == "quick"
     return [
         dict(n=50 if q else 800, maxlen=20, nremotes=3, caps=(16, 64, 4096), vlanes=["val"], mlanes=["map"], usecmd=False, keys=(1, 2, 3), faults=(), burst=True),
-        dict(n=40 if q else 800, maxlen=24, nremotes=2, caps=(24, 4096), vlanes=["val", "val2"], mlanes=["omap"], usecmd=True, keys=(1, 2), faults=("drop",), burst=True),
+        dict(n=40 if q else 800, maxlen=24, nremotes=2, caps=(24, 4096), vlanes=["val", "val2"], mlanes=["omap"], usecmd=True, keys=(1, 2), faults=("drop", "badcmd"), burst=True),
         dict(n=40 if q else 600, maxlen=18, nremotes=3, caps=(16, 32), vlanes=["tval"], mlanes=["tmap", "map"], usecmd=False, keys=(1, 2, 3), faults=(), burst=False),
+        dict(n=40 if q else 600, maxlen=20, nremotes=2, caps=(24, 4096), vlanes=["val"], mlanes=["map"], usecmd=True, keys=(1, 2, 3), faults=("rich",), advances=(25, 60), burst=True),
     ]
 
 
